@@ -2,50 +2,378 @@
 
 package actor
 
+// C33 - relocation accounts for every item and runs once per departure.
+//
+// One execution = one bubble cluster (zz_c33_env_test.go): the departing node D (oldest member, so that it
+// may host a cluster singleton), the next-oldest node L (leader after the departure) and 0..2 peers, all
+// REAL actor systems.  D's actors are spawned through the public API, its snapshot is built by the REAL
+// preShutdown, stored in the survivors' stores (what D's graceful shutdown does), then D leaves.  From then
+// on the explorer owns every source of non-determinism:
+//
+//   event "NodeLeft(D)"        the REAL handleNodeLeftEvent on every survivor; the first one is mandatory,
+//                              up to two more (duplicates) may be delivered at ANY later decision point;
+//   event "scan"               the load scan of the relocation worker (CountActorsByHost) is released
+//                              (ok | registry error, cost 1);
+//   event "batch -> peer"      an intercepted RelocateBatch attempt is released with a verdict:
+//                              ok | transport error (cost 1) | handled by the peer but reply lost (cost 1)
+//                              | peer unreachable from now on (cost 1);
+//   event "tick"               nothing to release but the relocation is still running (retry back-off):
+//                              virtual time advances by one second;
+//   event "end"                relocation finished: stop (or deliver a late duplicate first).
+//
+// vsched.Explore enumerates every event order and every fault placement within the fault budget.
+//
+// Oracle at the end (after all timers ran out), no more than the statement:
+//   * every relocatable actor of D (as spawned by the harness, singleton included) runs on at most one
+//     survivor, and if it runs on none it is listed in a RelocationFailed event;
+//   * if every duplicate NodeLeft(D) was delivered while the relocation was in flight (an intercepted
+//     call pending or a relocation worker alive - facts independent of the job table): exactly one
+//     relocation ran (one worker spawned, one RelocationStarted) and at most one RelocationFailed event
+//     was published;
+//   * the relocation terminates (the job is released) within 300 virtual seconds.
+
 import (
 	"context"
 	"fmt"
+	"os"
+	"sort"
+	"strings"
 	"testing"
 	"time"
 
+	"github.com/tochemey/goakt/v4/internal/address"
+	"github.com/tochemey/goakt/v4/internal/internalpb"
 	"github.com/tochemey/goakt/v4/internal/verif/vsched"
 )
 
-func TestVerifC33(t *testing.T) {
-	defer vsched.Finish(t)
+type c33Spec struct {
+	kind      string // obs label
+	role      string
+	singleton bool
+	nonReloc  bool
+}
+
+type c33Scenario struct {
+	name      string
+	survivors [][]string // role sets: [0] = leader after the departure, then the peers
+	actors    []c33Spec  // spawned on D; names a0..ak
+	bulk      int        // additional role-less actors (big-batch scenario)
+	grains    int        // lazy grain records owned by D
+	clean     bool       // D's registry records were removed (graceful leave) instead of left stale
+	dups      int        // duplicate NodeLeft(D) notifications available
+	bound     int
+}
+
+func c33Repeat(s c33Spec, n int) []c33Spec {
+	out := make([]c33Spec, n)
+	for i := range out {
+		out[i] = s
+	}
+	return out
+}
+
+func c33Scenarios() []c33Scenario {
+	bound := vsched.Pick(1, 2)
+	plain := c33Spec{kind: "P-"}
+	r1 := c33Spec{kind: "P1", role: "r1"}
+	r3 := c33Spec{kind: "P3", role: "r3"}
+	single := c33Spec{kind: "S-", singleton: true}
+	nonrel := c33Spec{kind: "N-", nonReloc: true}
+	scs := []c33Scenario{
+		{name: "two-peers", survivors: [][]string{nil, nil, nil}, actors: c33Repeat(plain, 4), grains: 3, dups: 2, bound: bound},
+		{name: "one-peer-mixed", survivors: [][]string{nil, nil}, actors: append(c33Repeat(plain, 3), single, r3, nonrel), grains: 2, dups: 2, bound: 2},
+		{name: "roles", survivors: [][]string{nil, {"r1"}, {"r1"}}, actors: c33Repeat(r1, 2), grains: 0, dups: 1, bound: 2},
+		{name: "no-peer", survivors: [][]string{nil}, actors: append(c33Repeat(plain, 2), single), grains: 1, dups: 2, bound: 2},
+		{name: "two-peers-clean-registry", survivors: [][]string{nil, nil, nil}, actors: c33Repeat(plain, 3), grains: 0, clean: true, dups: 1, bound: bound},
+	}
+	if vsched.Rep().Thorough() {
+		scs = append(scs,
+			c33Scenario{name: "two-batches", survivors: [][]string{nil, nil}, bulk: 2*defaultRelocationBatchSize + 3, dups: 1, bound: 2},
+			c33Scenario{name: "three-peers", survivors: [][]string{nil, nil, nil, nil}, actors: c33Repeat(plain, 4), grains: 4, dups: 1, bound: 2},
+		)
+	}
+	return scs
+}
+
+const c33MaxTicks = 300
+
+func c33Run(t *testing.T, sc c33Scenario, c *vsched.Chooser) (out vsched.Outcome) {
+	var viol []vsched.Violation
+	fail := func(sig, format string, a ...any) { viol = append(viol, vsched.Fail(sig, format, a...)) }
+	var obs []string
+	invalid := ""
+
 	p := vfBubble(t, func() {
 		ctx := context.Background()
-		w := c33NewWorld([][]string{nil, nil, nil})
-		d := w.nodes[2]
-		for i := 0; i < 3; i++ {
-			if _, err := d.sys.Spawn(ctx, fmt.Sprintf("a%d", i), &c33Actor{}, WithLongLived()); err != nil {
-				panic(err)
+		w := c33NewWorld(append([][]string{nil}, sc.survivors...))
+		d, leader := w.nodes[0], w.nodes[1]
+		survivors := w.nodes[1:]
+
+		// --- D's population -------------------------------------------------------------------
+		type item struct {
+			name string
+			spec c33Spec
+		}
+		var items []item
+		for i, sp := range sc.actors {
+			name := fmt.Sprintf("a%d", i)
+			var err error
+			if sp.singleton {
+				_, err = d.sys.SpawnSingleton(ctx, name, &c33Actor{})
+			} else {
+				opts := []SpawnOption{WithLongLived()}
+				if sp.role != "" {
+					opts = append(opts, WithRole(sp.role))
+				}
+				if sp.nonReloc {
+					opts = append(opts, WithRelocationDisabled())
+				}
+				_, err = d.sys.Spawn(ctx, name, &c33Actor{}, opts...)
 			}
+			if err != nil {
+				panic(fmt.Sprintf("c33: spawn %s on D: %v", name, err))
+			}
+			items = append(items, item{name, sp})
+		}
+		for i := 0; i < sc.bulk; i++ {
+			name := fmt.Sprintf("b%d", i)
+			if _, err := d.sys.Spawn(ctx, name, &c33Actor{}, WithLongLived()); err != nil {
+				panic(fmt.Sprintf("c33: spawn %s on D: %v", name, err))
+			}
+			items = append(items, item{name, c33Spec{kind: "P-"}})
 		}
 		vfSettle()
 		snap, err := d.sys.preShutdown()
+		if err != nil || snap == nil {
+			panic(fmt.Sprintf("c33: preShutdown: %v", err))
+		}
+		for g := 0; g < sc.grains; g++ {
+			wg := &internalpb.Grain{GrainId: &internalpb.GrainId{Kind: "actor.c33Grain", Name: fmt.Sprintf("g%d", g), Value: fmt.Sprintf("actor.c33Grain/g%d", g)}, Host: c33Host, Port: int32(d.remotingPort)}
+			if snap.Grains == nil {
+				snap.Grains = map[string]*internalpb.Grain{}
+			}
+			snap.Grains[wg.GetGrainId().GetValue()] = wg
+			_ = d.cl.PutGrain(ctx, wg)
+		}
+		// D's graceful shutdown hands its snapshot to every peer before leaving
+		for _, n := range survivors {
+			if err := n.sys.clusterStore.PersistPeerState(ctx, snap); err != nil {
+				panic(err)
+			}
+		}
+		w.leave(d, sc.clean)
+		sub, err := leader.sys.Subscribe()
 		if err != nil {
 			panic(err)
 		}
-		fmt.Printf("PROBE snapshot actors=%d host=%s pp=%d rp=%d\n", len(snap.GetActors()), snap.GetHost(), snap.GetPeersPort(), snap.GetRemotingPort())
-		for _, n := range w.nodes[:2] {
-			_ = n.sys.clusterStore.PersistPeerState(ctx, snap)
+		w.mu.Lock()
+		w.gateBatches, w.gateScan = true, true
+		w.mu.Unlock()
+
+		deliver := func() {
+			ev := c33NodeLeftEvent(d)
+			for _, n := range survivors {
+				n.sys.handleNodeLeftEvent(ev)
+			}
 		}
-		w.leave(d, false)
-		t0 := time.Now()
-		for _, n := range w.nodes[:2] {
-			n.sys.handleNodeLeftEvent(c33NodeLeftEvent(d))
+		workerAlive := func() bool { return len(leader.sys.relocator.Children()) > 0 }
+		jobOpen := func() bool { _, ok := leader.sys.relocationJob(d.peersAddr()); return ok }
+
+		// --- the event loop --------------------------------------------------------------------
+		deliver()
+		dupsLeft, ticks := sc.dups, 0
+		allDupsInFlight := true
+		var trail []string
+		for step := 0; ; step++ {
+			vfSettle()
+			if step > 400 {
+				invalid = "step limit"
+				break
+			}
+			pend := w.pendingCalls()
+			sort.SliceStable(pend, func(i, j int) bool {
+				a, b := pend[i], pend[j]
+				if a.to.idx != b.to.idx {
+					return a.to.idx < b.to.idx
+				}
+				if len(a.req.GetActors()) != len(b.req.GetActors()) {
+					return len(a.req.GetActors()) < len(b.req.GetActors())
+				}
+				return len(a.req.GetGrains()) < len(b.req.GetGrains())
+			})
+			scans := w.scansWaiting()
+			alive := workerAlive()
+			inFlight := len(pend) > 0 || scans > 0 || alive
+
+			type event struct {
+				label string
+				fire  func()
+			}
+			var events []event
+			if scans > 0 {
+				events = append(events, event{"scan", func() {
+					v := c.Choose("scan", 2, []int{0, 1}, func(i int) string { return [...]string{"ok", "registry-error"}[i] })
+					if v == 0 {
+						w.releaseScans(nil)
+					} else {
+						w.releaseScans(fmt.Errorf("c33: injected registry scan failure"))
+					}
+					trail = append(trail, [...]string{"scan", "scan!"}[v])
+				}})
+			}
+			for _, call := range pend {
+				call := call
+				events = append(events, event{fmt.Sprintf("batch->n%d(a%d,g%d)", call.to.idx, len(call.req.GetActors()), len(call.req.GetGrains())), func() {
+					v := c.Choose("verdict", 4, []int{0, 1, 1, 1}, func(i int) string { return [...]string{"ok", "transport-error", "reply-lost", "peer-down"}[i] })
+					switch v {
+					case 0:
+						w.release(call, c33BatchOK)
+					case 1:
+						w.release(call, c33BatchFail)
+					case 2:
+						w.release(call, c33BatchLost)
+					case 3:
+						w.mu.Lock()
+						w.down[call.to.idx] = true
+						w.mu.Unlock()
+						w.release(call, c33BatchFail)
+					}
+					trail = append(trail, fmt.Sprintf("n%d%s", call.to.idx, [...]string{"", "!err", "!lost", "!down"}[v]))
+				}})
+			}
+			if len(events) == 0 {
+				if inFlight || jobOpen() {
+					events = append(events, event{"tick", func() {
+						ticks++
+						time.Sleep(time.Second)
+					}})
+				} else {
+					events = append(events, event{"end", nil})
+				}
+			}
+			if dupsLeft > 0 {
+				events = append(events, event{"NodeLeft(D) again", func() {
+					dupsLeft--
+					if !inFlight {
+						allDupsInFlight = false
+					}
+					deliver()
+					trail = append(trail, map[bool]string{true: "dup", false: "late-dup"}[inFlight])
+				}})
+			}
+			pick := 0
+			if len(events) > 1 {
+				pick = c.Choose("event", len(events), nil, func(i int) string { return events[i].label })
+			}
+			if events[pick].fire == nil {
+				break
+			}
+			events[pick].fire()
+			if ticks > c33MaxTicks {
+				fail("relocation-never-completes", "the relocation of %s is still in flight after %d virtual seconds (trail %v)", d.peersAddr(), ticks, trail)
+				break
+			}
 		}
+		// --- drain: open the gates, let every timer and background goroutine finish -----------
+		w.mu.Lock()
+		w.gateBatches, w.gateScan = false, false
+		w.mu.Unlock()
+		for _, call := range w.pendingCalls() {
+			w.release(call, c33BatchOK)
+		}
+		w.releaseScans(nil)
 		vfSettle()
-		for i := 0; i < 3; i++ {
-			fmt.Printf("PROBE a%d on %v\n", i, w.runningOn(fmt.Sprintf("a%d", i)))
-		}
-		fmt.Printf("PROBE elapsed %v jobs=%d\n", time.Since(t0), len(w.nodes[0].sys.relocationJobs))
-		time.Sleep(time.Minute)
+		time.Sleep(5 * time.Minute)
 		vfSettle()
+
+		// --- observations ----------------------------------------------------------------------
+		runs := int(leader.sys.relocator.Actor().(*relocator).sequence)
+		started, failedEvents := 0, 0
+		listed := map[string]int{}
+		for m := range sub.Iterator() {
+			switch ev := m.Payload().(type) {
+			case *RelocationStarted:
+				if ev.Address() == d.peersAddr() {
+					started++
+				}
+			case *RelocationFailed:
+				if ev.Address() != d.peersAddr() {
+					continue
+				}
+				failedEvents++
+				for _, id := range ev.Actors() {
+					if addr, err := address.Parse(id); err == nil {
+						listed[addr.Name()]++
+					}
+				}
+			}
+		}
+		var place []string
+		for _, it := range items {
+			on := w.runningOn(it.name)
+			if !it.spec.nonReloc {
+				if len(on) > 1 {
+					fail("actor-running-on-two-survivors", "%s(%s) runs on nodes %v (trail %v)", it.name, it.spec.kind, on, trail)
+				}
+				if len(on) == 0 && listed[it.name] == 0 {
+					fail("actor-lost-unreported", "%s(%s) runs nowhere and is not listed in a RelocationFailed event (events=%d, trail %v)", it.name, it.spec.kind, failedEvents, trail)
+				}
+			}
+			if sc.bulk == 0 {
+				tag := it.spec.kind + "@"
+				for _, n := range on {
+					tag += fmt.Sprint(n)
+				}
+				if listed[it.name] > 0 {
+					tag += "F"
+				}
+				place = append(place, tag)
+			}
+		}
+		if allDupsInFlight {
+			if runs != 1 {
+				fail("second-relocation-started-while-in-flight", "%d relocation workers were started for one departure (trail %v)", runs, trail)
+			}
+			if started != 1 {
+				fail("relocation-started-event-count", "%d RelocationStarted events for one departure (trail %v)", started, trail)
+			}
+			if failedEvents > 1 {
+				fail("several-relocation-failed-events", "%d RelocationFailed events for one departure (trail %v)", failedEvents, trail)
+			}
+		}
+		if jobOpen() {
+			fail("relocation-job-never-released", "job for %s still registered at the end (trail %v)", d.peersAddr(), trail)
+		}
+		sort.Strings(place)
+		obs = append(obs, strings.Join(trail, ","), strings.Join(place, " "), fmt.Sprintf("runs=%d started=%d failed-events=%d", runs, started, failedEvents))
 		w.stopAll()
 	})
 	if p != nil {
-		t.Fatalf("panic: %v", p)
+		viol = append(viol, vsched.Fail("panic-during-relocation", "%v", p))
 	}
+	if os.Getenv("VERIF_C33_DUMP") != "" { // development aid
+		fmt.Printf("C33 %s choices=%v => %s viol=%v invalid=%q\n", sc.name, c.Choices(), strings.Join(obs, " | "), viol, invalid)
+	}
+	return vsched.Outcome{Obs: strings.Join(obs, " | "), Violations: viol, Invalid: invalid}
+}
+
+func TestVerifC33(t *testing.T) {
+	defer vsched.Finish(t)
+	var scs []vsched.Scenario
+	for _, sc := range c33Scenarios() {
+		sc := sc
+		var kinds []string
+		for _, a := range sc.actors {
+			kinds = append(kinds, a.kind)
+		}
+		scs = append(scs, vsched.Scenario{
+			Cfg: vsched.Config{Scenario: sc.name, Bound: sc.bound, Params: map[string]any{
+				"survivor_roles(leader first)": fmt.Sprint(sc.survivors), "departed_actors": strings.Join(kinds, ","), "bulk_actors": sc.bulk,
+				"lazy_grains": sc.grains, "registry_records_of_D": map[bool]string{true: "removed (graceful)", false: "stale"}[sc.clean],
+				"duplicate_NodeLeft": sc.dups, "fault_budget": sc.bound,
+			}},
+			Run: func(c *vsched.Chooser) vsched.Outcome { return c33Run(t, sc, c) },
+		})
+	}
+	vsched.ExploreAll(scs)
 }
